@@ -1172,6 +1172,13 @@ package bpmn
 //@   flag nonblocking
 //@   flag unlockedcallbacks
 //@   ensures [every-registered-consumer-once] count(Call, code("event|IConsumer.ConsumeEvent")) == old(count(Call, code("event|IConsumer.ConsumeEvent"))) + old(len(p.eventConsumers))
+// The sub-process forwards the same way.
+//@ func (*subProcess).ConsumeEvent
+//@   prop C11
+//@   flag emits opaque+calls
+//@   flag nonblocking
+//@   flag unlockedcallbacks
+//@   ensures [every-registered-consumer-once] count(Call, code("event|IConsumer.ConsumeEvent")) == old(count(Call, code("event|IConsumer.ConsumeEvent"))) + old(len(sp.eventConsumers))
 
 // A catch event consumes an event by queueing it for its own goroutine.  Delivery must not block, whatever the node's
 // state (not yet reached, waiting, already passed).
